@@ -37,6 +37,20 @@ class _Break(Exception):
     pass
 
 
+class Ptr:
+    """pointer into an array: the key of the array and an element offset."""
+    __slots__ = ('base', 'off')
+
+    def __init__(self, base, off):
+        self.base, self.off = base, off
+
+    def __eq__(self, o):
+        return isinstance(o, Ptr) and (self.base, self.off) == (o.base, o.off)
+
+    def __hash__(self):
+        return hash((self.base, self.off))
+
+
 class Poly:
     __slots__ = ('t',)
 
@@ -402,12 +416,18 @@ class SymEval:
             if n['ch']:
                 return self.lvalue(fr, n['ch'][0]) + (n['m'],)
         if k == 'ArraySubscriptExpr':
-            base = self.lvalue(fr, n['ch'][0])
             idx = self.ev(fr, n['ch'][1])
             if not isinstance(idx, Poly) or not idx.is_const() or idx.const_value().denominator != 1:
                 raise Unsupported('array index not constant at %s' % f.loc(nid))
+            pv = self.ptr_value(fr, n['ch'][0])
+            if pv is not None:
+                return pv.base + (pv.off + int(idx.const_value()),)
+            base = self.lvalue(fr, n['ch'][0])
             return base + (int(idx.const_value()),)
         if k == 'UnaryOperator' and n.get('op') == '*':
+            pv = self.ptr_value(fr, n['ch'][0])
+            if pv is not None:
+                return pv.base + (pv.off,)
             return self.lvalue(fr, n['ch'][0])
         if k == 'CXXOperatorCallExpr' and (n.get('callee') or {}).get('name') == 'operator[]' and len(n.get('args', [])) == 2:
             base = self.lvalue(fr, n['args'][0])        # element of a std::vector / std::array
@@ -418,6 +438,34 @@ class SymEval:
         if k == 'CXXThisExpr':
             return fr.thiskey
         raise Unsupported('lvalue %s at %s' % (k, f.loc(nid)))
+
+    def ptr_value(self, fr, nid):
+        """the Ptr an expression of pointer type evaluates to, or None (also performs ++/-- on pointers)."""
+        f = fr.fn
+        n = f.nodes[f.strip_casts(nid)]
+        if not n.get('t', '').rstrip().endswith('*'):
+            return None
+        if n['k'] == 'DeclRefExpr' and n.get('rk') in ('param', 'local') and n.get('d') not in fr.refs:
+            key = ('v', n['d'])
+            if key not in self.env:
+                self.env[key] = Ptr(key, 0)
+            v = self.env[key]
+            return v if isinstance(v, Ptr) else None
+        if n['k'] == 'UnaryOperator' and n.get('op') in ('++', '--'):
+            inner = f.nodes[f.strip_casts(n['ch'][0])]
+            pv = self.ptr_value(fr, n['ch'][0])
+            if pv is None or inner['k'] != 'DeclRefExpr':
+                return None
+            nv = Ptr(pv.base, pv.off + (1 if n['op'] == '++' else -1))
+            self.env[('v', inner['d'])] = nv
+            return pv if n.get('postfix') else nv
+        if n['k'] == 'BinaryOperator' and n.get('op') in ('+', '-'):
+            pv = self.ptr_value(fr, n['ch'][0])
+            k = self.ev(fr, n['ch'][1])
+            if pv is not None and isinstance(k, Poly) and k.is_const():
+                d = int(k.const_value())
+                return Ptr(pv.base, pv.off + (d if n['op'] == '+' else -d))
+        return None
 
     # ------------------------------------------------------------------ statements
     def ex(self, fr, nid):
@@ -608,7 +656,10 @@ class SymEval:
             return Poly.const(1 if n['v'] == '1' else 0)
         if k == 'DeclRefExpr':
             if n.get('rk') in ('param', 'local', 'slocal'):
-                return self.read(self.lvalue(fr, nid))
+                key = self.lvalue(fr, nid)
+                if key not in self.env and n.get('t', '').rstrip().endswith('*') and n.get('d') not in fr.refs:
+                    self.env[key] = Ptr(key, 0)       # a pointer the function may step through its array
+                return self.read(key)
             if 'cv' in n:
                 return Poly.const(int(n['cv']))
             v = self.static_value(n)
@@ -624,6 +675,11 @@ class SymEval:
             return self.read(self.lvalue(fr, nid))
         if k == 'UnaryOperator':
             op = n['op']
+            if op in ('++', '--') and n.get('t', '').rstrip().endswith('*'):
+                pv = self.ptr_value(fr, nid)
+                if pv is None:
+                    raise Unsupported('pointer step at %s' % f.loc(nid))
+                return pv
             if op in ('++', '--'):
                 key = self.lvalue(fr, n['ch'][0])
                 v = self.read(key)
@@ -737,6 +793,16 @@ class SymEval:
             self.env[self.lvalue(fr, n['ch'][0])] = v
             return v
         if op.endswith('=') and len(op) >= 2:
+            if op in ('+=', '-=') and f.nodes[f.strip_casts(n['ch'][0])].get('t', '').rstrip().endswith('*'):
+                pv = self.ptr_value(fr, n['ch'][0])
+                b = self.ev(fr, n['ch'][1])
+                inner = f.nodes[f.strip_casts(n['ch'][0])]
+                if pv is not None and isinstance(b, Poly) and b.is_const() and inner['k'] == 'DeclRefExpr':
+                    d = int(b.const_value())
+                    nv = Ptr(pv.base, pv.off + (d if op == '+=' else -d))
+                    self.env[('v', inner['d'])] = nv
+                    return nv
+                raise Unsupported('pointer arithmetic at %s' % f.loc(nid))
             key = self.lvalue(fr, n['ch'][0])
             a = self.read(key)
             b = self.ev(fr, n['ch'][1])
